@@ -87,6 +87,31 @@ theorem l_status_clean (F : Fmt) (D : Dif) (f : Flags) (es : List Entry)
     · rw [hne ev hev] at h; cases h
   · exact Or.inl
 
+/-! ## one pipeline for every mode: parse → simplify? → print → compare -/
+
+/-- `g` is `f` with other mode flags (`-l`, `-w`, `-d`) — same parser/printer/walk flags. -/
+def SameFormatting (f g : Flags) : Prop :=
+  g = { f with list := g.list, write := g.write, diff := g.diff }
+
+/-- The mode flags do not take part in resolving the language or the options (incl. `simplify` and
+    `minify`, from flags or from EditorConfig): list-only, diff, write and plain runs hand the formatter
+    the same option record, hence compare against the same formatted bytes. -/
+theorem modes_same_pipeline (f g : Flags) (h : SameFormatting f g) (e : Entry) (l : Lang) (p s : Bytes) :
+    resolveOpts g e l = resolveOpts f e l ∧ fileLang g p s = fileLang f p s ∧
+    stdinLang g p s = stdinLang f p s := by
+  rw [h]; exact ⟨rfl, rfl, rfl⟩
+
+/-- List-only mode under simplification: with `-s` (or `-mn`) the file is listed exactly when the
+    *simplified* formatted bytes differ — `F` receives `simplify = true`. -/
+theorem l_lists_simplified (F : Fmt) (D : Dif) (f : Flags) (e : Entry) (hl : f.list ≠ .off)
+    (hfind : f.find = .off) (hs : f.simplify = some true ∨ f.mn = some true) :
+    ∃ o, o.simplify = true ∧ o = optsOfFlags f (fileLang f e.path e.src) ∧
+      ((formatPath F D f e false).listed = true ↔ ∃ r, F o e.path e.src = .ok r ∧ r ≠ e.src) := by
+  have hec : useEC f = false := by
+    unfold useEC; rcases hs with h | h <;> simp [h]
+  refine ⟨_, ?_, rfl, l_lists_iff_file F D f e hl hfind _ false (resolveOpts_flags f e _ hec)⟩
+  unfold optsOfFlags; rcases hs with h | h <;> simp [h]
+
 /-! ## `-d` prints a diff exactly for those files, and the diff applies -/
 
 /-- A diff is printed exactly when the formatted output differs (and `-w` did not refuse). -/
